@@ -331,7 +331,8 @@ func PTotal(args []string) string {
 // PBigIdentity builds, inside the worker, a volume holding a file of 16 MiB or more (extended
 // header, FFSv3) with the given alignment attribute, a small neighbour before and optionally after
 // it, and free space; then checks Save(Parse(x)) == x. args: seed, attr (hex), extra body bytes
-// beyond 16 MiB, trailing file (0/1).
+// beyond 16 MiB, trailing file (0/1), optionally the sectioned mode (1/2) and a bit set saying where
+// files carrying a nested FFSv2 volume are placed around the big file.
 func PBigIdentity(args []string) string {
 	r := NewRng(UnN(args[0]))
 	attr := byte(UnN(args[1]))
@@ -357,6 +358,23 @@ func PBigIdentity(args []string) string {
 		}
 	}
 	v.Files = []*uefigen.File{small, big}
+	if len(args) > 5 && UnN(args[5]) != 0 {
+		// nested FFSv2 volumes (FV-image section of a volume-image file) before (bit 1) and/or after
+		// (bit 0) the big file: the 'file of 16 MiB and more was rebuilt' state of the assembler must
+		// stay with the volume that holds the big file
+		nest := UnN(args[5])
+		mk := func() *uefigen.File {
+			in := &uefigen.Vol{FSGUID: uefigen.FFS2, Attrs: 0x800 | 0x4FEFF, Revision: 2, BlockSize: 64, FreeSpace: 24}
+			in.Files = []*uefigen.File{{GUID: uefigen.GenGUID(r), Type: 0xC7, State: 0xF8, Body: r.Bytes(21)}}
+			return &uefigen.File{GUID: uefigen.GenGUID(r), Type: 0x0B, State: 0xF8, Secs: []*uefigen.Sec{{Type: 0x17, Vol: in}}}
+		}
+		if nest&2 != 0 {
+			v.Files = []*uefigen.File{small, mk(), big}
+		}
+		if nest&1 != 0 {
+			v.Files = append(v.Files, mk())
+		}
+	}
 	if trailing {
 		v.Files = append(v.Files, &uefigen.File{GUID: uefigen.GenGUID(r), Type: 0xC6, State: 0xF8, Body: r.Bytes(17)})
 	}
